@@ -6,7 +6,7 @@
 cd "$(dirname "$0")/.." || exit 2
 export GOFLAGS=-mod=mod GOPROXY=off GOSUMDB=off GOTOOLCHAIN=local
 P="$1"; N="$2"; PKG="$3"; shift 3; PROPS="$P $*"
-SRC=/tmp/seed_$P/SEED
+SRC=${SEED_SRC:-/tmp/seed_$P/SEED}
 S=$(mktemp -d /tmp/verif_seed.XXXXXX)
 rsync -a --exclude .git /repo/ "$S/repo/"
 cp "$SRC/demo${N}_test.go" "$S/repo/$PKG/zz_seed_demo_test.go"
